@@ -179,7 +179,7 @@ def check_cli(ctx, plain, rng, scratch):
     case = {"kind": "cli", "asm": plain}
     agp = agp_ref.format(plain)
     tpf = tpf_ref.format(plain)
-    mode = rng.choice(["agp2tpf", "tpf2agp", "stdin", "override", "crlf", "outfile", "multi", "multi"])
+    mode = rng.choice(["agp2tpf", "tpf2agp", "stdin", "override", "crlf", "outfile", "multi", "multi", "out-override", "no-final-newline"])
     ctx.count(f"cli:{mode}")
     if mode == "agp2tpf":
         (d / "a.agp").write_text(agp)
@@ -200,6 +200,17 @@ def check_cli(ctx, plain, rng, scratch):
         (d / "c.agp").write_bytes(agp.replace("\n", "\r\n").encode())
         r = cli_runs.run_asm_format([d / "c.agp", "-f", "AGP"])
         want = agp
+    elif mode == "out-override":
+        # an explicit -f wins over what the name of the output file suggests
+        (d / "a.agp").write_text(agp)
+        fmt_out, name = rng.choice([("TPF", "o.agp"), ("TPF", "o.agp_converted"), ("AGP", "o.tpf"), ("AGP", "o.tpf2agp"), ("TPF", "o.fa.txt")])
+        r = cli_runs.run_asm_format([d / "a.agp", "-f", fmt_out, "-o", d / name])
+        want = tpf if fmt_out == "TPF" else agp
+        outfile = d / name
+    elif mode == "no-final-newline":
+        (d / "n.tpf").write_text(tpf[:-1])
+        r = cli_runs.run_asm_format([d / "n.tpf", "-f", "TPF"])
+        want = tpf
     elif mode == "multi":
         # several input files of different formats in one invocation: each by its own extension
         (d / "m1.agp").write_text(agp)
@@ -214,7 +225,11 @@ def check_cli(ctx, plain, rng, scratch):
     if r["exit_code"] != 0:
         ctx.violation(f"asm-format-failed:{mode}", f"exit {r['exit_code']} {r['exception']!r} {r['stderr'][-300:]}", case)
         return
-    got = (d / "o.tpf").read_text() if mode == "outfile" else r["stdout"]
+    if mode == "out-override":
+        got = outfile.read_text() if outfile.exists() else "<no output file>"
+        outfile.unlink(missing_ok=True)
+    else:
+        got = (d / "o.tpf").read_text() if mode == "outfile" else r["stdout"]
     if got != want:
         ctx.violation(f"asm-format-output-differs:{mode}", f"got:\n{got[:400]}\nwant:\n{want[:400]}", case)
         return
@@ -260,6 +275,9 @@ def gates(c, tier):
         "gap-type:contig": 100,
         "gap-type:short_arm": 100,
         "cli:ok": 200,
+        "cli:out-override": 20,
+        "cli:no-final-newline": 20,
+        "corruption:no-final-newline:ref-valid:parsed": 300,
     }
     out = [f"{k}>={v} (got {c.get(k, 0)})" for k, v in need.items() if c.get(k, 0) < v]
     for kind in ("drop-column", "bad-strand", "non-numeric", "reversed", "field-count", "gap-first"):
